@@ -61,6 +61,16 @@ Theorem C08_equal_sym : forall a b, wf_ds a -> wf_ds b -> equal a b = equal b a.
 Proof. exact equal_sym. Qed.
 Print Assumptions C08_equal_sym.
 
+(* the answer depends ONLY on the current content of the two arguments: two pairs of datasets with the same
+   parts present, the same lookups in every dict-like part (whatever the insertion order, i.e. whatever sequence
+   of typed or inherited-dict operations produced the objects) and the same point arrays get the same answer.
+   No cache, no trace of earlier comparisons or queries, exists in the model; the correspondence over comparison
+   HISTORIES (harness/props/c08.py) is what ties the implementation to this statement. *)
+Theorem C08_equal_depends_on_content_only : forall a a' b b',
+  wf_ds a -> wf_ds a' -> wf_ds b -> wf_ds b' -> ds_same a a' -> ds_same b b' -> equal a b = equal a' b'.
+Proof. exact equal_content_only. Qed.
+Print Assumptions C08_equal_depends_on_content_only.
+
 (* any difference in any one part — present on one side only, a key on one side only, a leaf not related —
    makes the answer false in BOTH argument orders, whatever the other 17 parts are *)
 Theorem C08_equal_detects : forall a b p, wf_ds a -> wf_ds b ->
